@@ -109,6 +109,27 @@ def check_equiv(inp):
       has = sum(len(d) for _, d, _ in cl) > 0
       st = jax.tree_util.tree_map(lambda p, c: p - 0.7 * 0.05 * c if has else p, st, full)
       ref.append(jax.tree_util.tree_map(np.asarray, st))
+  elif which == 'mime1_keyed':
+    # a loss that USES its key (input dropout): in the single local step g(w;b,k) - g(w;b,k) must still cancel
+    from fedjax.core import tree_util
+
+    def pel_drop(params, batch, rng):
+      keep = jax.random.bernoulli(rng, 0.5, batch['x'].shape)
+      x = jnp.where(keep, batch['x'] * 2.0, 0.)
+      return (x @ params['w'] + params['b'] - batch['y']) ** 2
+    base = optimizers.sgd(0.05)
+    hp1 = cds.ShuffleRepeatBatchHParams(batch_size=8, num_epochs=1, seed=4)
+    alg = mime.mime(pel_drop, base, hp1, php, 0.7)
+    grads_fec = mime.create_grads_for_each_client(models.grad(pel_drop))
+    st = alg.init(params0())
+    got, ref = [], []
+    for r, sizes in enumerate(rounds):
+      cl = clients_for(r, sizes)
+      gs, ns = tree_util.tree_sum(co for _, co in grads_fec(st.params, [(c, d.padded_batch(php), k) for c, d, k in cl]))
+      c_full = tree_util.tree_inverse_weight(gs, ns)
+      ref.append(jax.tree_util.tree_map(lambda p_, g_: np.asarray(p_ - 0.7 * 0.05 * g_), st.params, c_full))
+      st, _ = alg.apply(st, cl)
+      got.append(jax.tree_util.tree_map(np.asarray, st.params))
   elif which == 'apfl':
     got = run(apfl.adaptive_personalized_federated_learning(grad_fn, copt, sopt, hp, 0.5), rounds)
   for r, (a, b) in enumerate(zip(got, ref)):
@@ -127,6 +148,7 @@ def sweep_equiv(tier, seed):
   yield dict(which='hyp1', copt='momentum', rounds=R)
   yield dict(which='mimelite', copt='sgd', rounds=R)
   yield dict(which='mime1', copt='sgd', rounds=[[3, 4], [2, 5]])
+  yield dict(which='mime1_keyed', copt='sgd', rounds=[[3, 4], [2, 5, 1]])
 
 
 CHECKERS = {'equiv': (check_equiv, sweep_equiv)}
